@@ -251,11 +251,18 @@ func genGoHeaders(r *Rng, cfg BucketCfg, alg cose.Algorithm, haveAlg bool, raws 
 		h.Unprotected = cose.UnprotectedHeader(genGoBucket(r, cfg, false, 0, false, ivU))
 	}
 	if raws {
-		switch r.Intn(6) {
-		case 0:
+		switch r.Intn(4) {
+		case 0, 3:
 			// raw protected consistent with a (possibly different) typed map
 			p, _ := genHeadersTree(r, GenCfg{MaxEntries: 3, ValDepth: 1}, int64(alg), haveAlg)
-			p.RandWidths(r, 1, 2, nil)
+			if pm, err := refParseFull(p.Str); err == nil && r.Bool() {
+				pm.RandWidths(r, 1, 2, nil) // another encoder's spelling of the map inside
+				pm.ShuffleMaps(r)
+				p.Str = pm.Ser()
+			}
+			if ws := widthsFor(uint64(len(p.Str))); r.Chance(2, 3) {
+				p.Width = ws[r.Intn(len(ws))] // ... and of the length prefix around it
+			}
 			h.RawProtected = p.Ser()
 		case 1:
 			h.RawProtected = []byte{}
